@@ -2,7 +2,11 @@ package main
 
 import (
 	"bytes"
+	"os"
+	"os/exec"
+	"path/filepath"
 	"runtime"
+	"strings"
 	"time"
 
 	"github.com/bobertlo/gmars"
@@ -130,9 +134,83 @@ func runAsm(e *emitter, kind int64, c []int64) {
 			return
 		}
 		e.rec(encText(75, s)...)
+		// the text behind the -A option: one case in six also goes through the command (every flag combination that
+		// names a dialect and a core size: -8 / -s, and the presets); the listing the command prints for the listing
+		// just obtained must be that listing again (record 78: 0 same, 1 differs, 2 the command failed)
+		if h%6 == 0 && n > 0 {
+			e.rec(78, cliListing(h, code, start))
+		}
 	default:
 		if !runAsmHooks(e, kind, c) {
 			e.rec(0)
 		}
 	}
+}
+
+// cliListing: the warrior, with its fields reduced into the core of the chosen setting, is listed through the API, the
+// listing is written to a file and handed to `gmars -A` with the flags that describe the same setting
+func cliListing(h int64, code []gmars.Instruction, start int) int64 {
+	type setting struct {
+		args []string
+		cfg  gmars.SimulatorConfig
+	}
+	var st setting
+	presets := []string{"88", "icws", "nop94", "noptiny", "nop256", "nopnano"}
+	switch k := (h / 6) % 9; {
+	case k < 6:
+		c, err := gmars.PresetConfig(presets[k])
+		if err != nil {
+			return 2
+		}
+		st = setting{[]string{"-preset", presets[k]}, c}
+	case k == 6:
+		st = setting{[]string{"-8", "-s", "8192", "-l", "100"}, gmars.NewQuickConfig(gmars.ICWS88, 8192, 8000, 80000, 100)}
+	case k == 7:
+		st = setting{[]string{"-s", "55441", "-l", "100"}, gmars.NewQuickConfig(gmars.ICWS94, 55441, 8000, 80000, 100)}
+	default:
+		st = setting{[]string{"-8"}, gmars.NewQuickConfig(gmars.ICWS88, 8000, 8000, 80000, 100)}
+	}
+	m := st.cfg.CoreSize
+	if gmars.Address(len(code)) > st.cfg.Length {
+		code = code[:st.cfg.Length]
+		if start >= len(code) {
+			start = 0
+		}
+	}
+	cc := make([]gmars.Instruction, len(code))
+	for i, in := range code {
+		in.A %= m
+		in.B %= m
+		cc[i] = in
+	}
+	var want string
+	if guard(func() {
+		sim, err := gmars.NewSimulator(st.cfg)
+		if err != nil {
+			panic(err)
+		}
+		w, _ := sim.AddWarrior(&gmars.WarriorData{Code: cc, Start: start})
+		want = w.LoadCode()
+	}) {
+		return 2
+	}
+	// only warriors the dialect can express go through the assembler
+	if _, err := gmars.CompileWarrior(strings.NewReader(want), st.cfg); err != nil {
+		return 3
+	}
+	dir, err := os.MkdirTemp(filepath.Dir(os.Args[0]), "lst")
+	if err != nil {
+		return 2
+	}
+	defer os.RemoveAll(dir)
+	f := filepath.Join(dir, "w.red")
+	os.WriteFile(f, []byte(want), 0o644)
+	out, err := exec.Command(filepath.Join(filepath.Dir(os.Args[0]), "gmars"), append(append([]string{"-A"}, st.args...), f)...).Output()
+	if err != nil {
+		return 2
+	}
+	if string(out) == want+"\n" {
+		return 0
+	}
+	return 1
 }
